@@ -217,8 +217,8 @@ def run(chk, tier):
     seed = chk.seed % 1000003
     if tier == "quick":
         plan = [  # name, programs, maxforms, maxbad, ncat, forced catalogue kinds, verbose every n-th, layouts
-            ("one", 10, 6, 1, None, (), 5, ["line"]),
-            ("two", 3, 5, 2, 3, ("syntax", "shadow"), 7, ["line"]),
+            ("one", 8, 6, 1, None, (), 5, ["line"]),
+            ("two", 2, 5, 2, 3, ("syntax", "shadow"), 7, ["line"]),
         ]
     else:
         plan = [
